@@ -15,6 +15,8 @@ mod handshake;
 mod framing;
 mod io;
 mod md5;
+mod nodeenv;
+mod rpc;
 mod order;
 mod pid;
 mod term_json;
@@ -44,6 +46,7 @@ fn main() {
         "hs-edges" => handshake::run_edges(rest),
         "hs-wire" => handshake::run_wire(rest),
         "pid-run" => pid::run(rest),
+        "rpc-run" => rpc::run(rest),
         other => {
             eprintln!("unknown subcommand {other}");
             2
